@@ -1,11 +1,12 @@
 #!/bin/sh
 # Creates a scratch worktree for a seeding sub-agent and prints the prompt to give it (property text only).
-# usage: lib/seedmk.sh <property id> <suffix>     -> worktree /tmp/seed_<id><suffix>, prompt on stdout
-ID=$1; SUF=$2; WT=/tmp/seed_$ID$SUF
+# usage: lib/seedmk.sh <property id> <suffix> [anchor file]    -> worktree /tmp/seed_<id><suffix>, prompt on stdout
+# (with an anchor file of the property: the change has to be made there)
+ID=$1; SUF=$2; FILE=$3; WT=/tmp/seed_$ID$SUF
 git -C /repo worktree add --detach -f $WT HEAD >/dev/null 2>&1 || { echo "worktree failed" >&2; exit 2; }
-python3 - "$ID" "$WT" <<'P'
+python3 - "$ID" "$WT" "$FILE" <<'P'
 import json, sys
-pid, wt = sys.argv[1], sys.argv[2]
+pid, wt, hint = sys.argv[1], sys.argv[2], sys.argv[3]
 p = [json.loads(l) for l in open('/verif/properties.jsonl') if json.loads(l)['id'] == pid][0]
 text = "%s: %s\n%s\nQuantified over: %s" % (p['id'], p['title'], p['statement'], p['quantifier']['text'])
 t = open('/verif/lib/seed_prompt.txt').read().replace('__WT__', wt).replace('__PROP__', text)
@@ -13,5 +14,10 @@ t += ("\n\nHARD MODE: earlier, simpler seeded changes for this property were all
       "needs a rare combination: a boundary value (i128/u32 extremes, exactly-at-limit), an interplay of two features or two contracts, a "
       "state reached only after several steps, or a path that ordinary use never takes. Still realistic, still small.\n"
       "Keep each of your messages and tool inputs small (write files in pieces if long) so that you do not hit output limits.")
+if hint:
+    t += ("\n\nWHERE: the property's authors name this file among the code the property is anchored in: " + hint + " . Make your change "
+          "THERE (a second cooperating site elsewhere is allowed if needed). If, after reading it, you are convinced that no change to that "
+          "file can violate the property while keeping all existing tests green, say so in meta.json (\"property\": ..., \"impossible\": "
+          "\"<why>\") and stop - do not fall back to another file.")
 print(t)
 P
